@@ -538,7 +538,23 @@ class BlobReplayer:
             elif a == 'Wrong':
                 return self._wrong(args[0])
             elif a == 'PackDuring':
-                self.db.pack(t=clock.T0 + args[0] + 0.5)
+                # in a thread of its own: a pack that waits for the commit lock must not hang the replay
+                import threading
+                box = {}
+
+                def run():
+                    try:
+                        self.db.pack(t=clock.T0 + args[0] + 0.5)
+                    except BaseException as ex:
+                        box['ex'] = ex
+                th = threading.Thread(target=run, daemon=True)
+                th.start()
+                th.join(3)
+                if th.is_alive():
+                    self._waiting_pack = th
+                    return 'blocked until the commit ends'
+                if 'ex' in box:
+                    raise box['ex']
             elif a == 'Pack':
                 try:
                     self.db.pack(t=clock.T0 + args[0] + 0.5)
@@ -773,6 +789,9 @@ class BlobReplayer:
             self.last_exc = repr(ex)[:300]
         finally:
             self._disarm_fault()
+        if getattr(self, '_waiting_pack', None) is not None:
+            self._waiting_pack.join(60)
+            self._waiting_pack = None
         if got != 'ok':
             tm.abort()                       # what an application does after a failed commit
         if who == 'c1':
